@@ -172,11 +172,13 @@ package snowflake_client
 //@   requires p != nil
 //@   requires {runs-at-most-once} !closed(p.melt) && !closed(p.snowflakeChan) && p.melt != nil
 //@   loop 1 invariant p.activePeers.n >= 0 && p.activePeers.n <= cnt && (e != nil ==> tagis(e.Value, *WebRTCPeer) && unbox(e.Value, *WebRTCPeer) != nil) && held(&p.collectLock) && closed(p.melt) && closed(p.snowflakeChan) && calls(Close) == calls(Remove)
+//@   loop 1 invariant {the-walk-is-always-at-the-front-of-what-is-left} (e == nil ==> p.activePeers.n == 0) && (e != nil ==> e.in == p.activePeers && e.rem == p.activePeers.n)
 //@   at call close#1 assert {melt-closed-without-the-lock} ch == p.melt && !held(&p.collectLock)
 //@   at call close#2 assert {handover-closed-under-the-lock-after-melt} ch == p.snowflakeChan && held(&p.collectLock) && closed(p.melt)
 //@   at call Close assert {closes-every-peer-it-holds} held(&p.collectLock)
 //@   at call Remove assert {each-peer-is-closed-before-it-is-dropped} calls(Close) == calls(Remove) + 1 && arg1 == e
 //@   ensures {each-dropped-peer-was-closed} calls(Close) == calls(Remove)
+//@   ensures {no-active-peer-is-left} p.activePeers.n == 0
 //
 // ---- the peer as a byte stream (C09): Write hands exactly the caller's bytes to the data channel, once, and reports
 // all of them written or an error; Read takes from the pipe the data channel callback fills.
